@@ -58,7 +58,7 @@ let () =
        let r0 = cold_node w64 (zi mode) start (zi (q * ndev)) (zi nsl) pc devs (List.init ndev (fun i -> lst "rx" i)) rcfg in
        let r0 = if cold then r0 else prelude gf_lib r0 hb t0 in
        let opstrs = String.split_on_char ';' (String.sub line (bar+1) (String.length line - bar - 1)) in
-       let ops = List.map (fun s -> match split s with
+       let base_op s = match split s with
            | ["T"; dt] -> Some (RBase (OTick (z_of_string dt)))
            | ["A"] -> Some (RBase (OAccept []))
            | ["A"; p] -> Some (RBase (OAccept (List.init (String.length p) (fun i -> p.[i] = '1'))))
@@ -72,9 +72,23 @@ let () =
              Some (RRx { r_id = zhex id; r_len = z_of_string len; r_buf = List.init 8 (fun i -> if i < List.length d then List.nth d i else zi 0) })
            | ["H"; iv; off] -> Some (RSetHeartbeat (z_of_string iv, z_of_string off, zi (-1)))
            | ["H"; iv; off; idev] -> Some (RSetHeartbeat (z_of_string iv, z_of_string off, z_of_string idev))
-           | _ -> None) opstrs in
+           | _ -> None in
+       (* public calls of the application (Model/ApiDefs.v); everything else is an operation of Model/NodeRxDefs.v *)
+       let ops = List.map (fun s -> match split s with
+           | ["Q"; "ac"; dst; idev; delay] -> Some (XApi (ASendClaim (z_of_string dst, z_of_string idev, z_of_string delay)))
+           | ["Q"; "pi"; idev] -> Some (XApi (ASendProd (z_of_string idev)))
+           | ["Q"; "ci"; idev] -> Some (XApi (ASendConf (z_of_string idev)))
+           | ["Q"; "tx"; dst; idev; tp] -> Some (XApi (ASendTxList (z_of_string dst, z_of_string idev, (tp = "1"))))
+           | ["Q"; "rx"; dst; idev; tp] -> Some (XApi (ASendRxList (z_of_string dst, z_of_string idev, (tp = "1"))))
+           | ["Q"; "hb"; force] -> Some (XApi (ASendHeartbeatAll (force = "1")))
+           | ["Q"; "hd"; idev] -> Some (XApi (ASendHeartbeatDev (z_of_string idev)))
+           | ["Q"; "hi"; iv; idev] -> Some (XBase (RSetHeartbeat (z_of_string iv, z_of_string "4294967295", z_of_string idev)))   (* deprecated alias SetHeartbeatInterval *)
+           | ["I"; idev; lo; up; si] -> Some (XApi (ASetInstances (z_of_string idev, z_of_string lo, z_of_string up, z_of_string si)))
+           | ["D"; idev; u; f; c; m; g] -> Some (XApi (ASetDeviceInformation (z_of_string idev, z_of_string u, z_of_string f, z_of_string c, z_of_string m, z_of_string g)))
+           | ["X"] -> Some (XApi ARestart)
+           | _ -> (match base_op s with Some o -> Some (XBase o) | None -> None)) opstrs in
        let nonempty = List.map (fun s -> split s <> []) opstrs in
-       let (r, evs) = rrun gf_lib r0 (List.filter_map (fun x -> x) ops) in
+       let (r, evs) = xrun gf_lib r0 (List.filter_map (fun x -> x) ops) in
        if r.r_oob then print_string "oob" else begin
        let rec pr first ops ne evs = match ops, ne with
          | [], _ -> ()
